@@ -46,6 +46,7 @@ type Run struct {
 	Steps    int
 	Horizon  int
 	Livelock bool
+	Acquires []int8             // thread ids in the order in which mutexes were acquired (an observable of the schedule)
 	OnPoint  func(label string) // invariant hook evaluated at every scheduling point (must be norace)
 	aborted  bool
 	inHook   bool
@@ -278,6 +279,15 @@ func Go(ch Chooser, horizon int, onPoint func(label string), bodies ...func()) *
 
 // Threads exposes per-thread results.
 func (r *Run) Threads() []*Thread { return r.threads }
+
+// NoteAcquire records that the running thread acquired a lock.
+//
+//go:norace
+func NoteAcquire() {
+	if r := active; r != nil && r.cur != nil && len(r.Acquires) < 64 {
+		r.Acquires = append(r.Acquires, int8(r.cur.ID))
+	}
+}
 
 // CurID returns the id of the running thread (-1 outside a run).
 //
